@@ -144,7 +144,11 @@ func liWorldGen(r *Run, rng *Rng, w *liWorld, steps int) {
 			if tip > lo && rng.Chance(30) {
 				b = tip // the most common reorg: exactly the last stored block
 			}
-			removes := len(w.survNums) > 0 && w.survNums[len(w.survNums)-1] >= b
+			var lastStored uint64 // the last block row of the store
+			must(w.p.DB().QueryRow("SELECT COALESCE(MAX(num), 0) FROM block").Scan(&lastStored))
+			var nRemoved int
+			must(w.p.DB().QueryRow("SELECT COUNT(*) FROM block WHERE num >= $1", b).Scan(&nRemoved))
+			removes := nRemoved > 0
 			w.exec(r, fmt.Sprintf("reorg %d", b))
 			r.Count("branch:reorg")
 			if halted && removes && w.p.IsHalted() {
